@@ -279,6 +279,7 @@ func init() {
 	addScoped("C07", "D9", in("reader/logql/"), d9)
 	addScoped("C08", "D9", in("reader/logql/"), d9)
 	addScoped("C11", "D9", in("reader/traceql/", "reader/tempo", "reader/service"), d9)
+	addScoped("C04", "O3", in("writer/utils/unmarshal"), "(O3) the row handler never writes into the label slice a decoder lent it: decoders hand the same buffer to several calls, and a list edited in place gives the later calls another label set and so another fingerprint for the same series.")
 	addScoped("C03", "O3", in("writer/"), "(O3) a handler never writes into the backing array of a slice a decoder lent it (decoders reuse their label and value slices for the following rows).")
 	s2 := "(S2) every decoder field an emitted row depends on is reset for every record on every entry (array and newline-delimited framing alike), so a record never inherits ids, tags, labels or payload of the one before it."
 	addScoped("C06", "S2", in("zipkin", "Span", "span"), s2)
@@ -300,6 +301,7 @@ func init() {
 	d10 := "(D10) and/or chains are translated by structural recursion: the operator of a chain node joins its head with the translation of its whole tail."
 	addScoped("C07", "D10", in("clickhouse_planner"), d10)
 	addScoped("C09", "D10", in("internal_planner"), d10)
+	addScoped("C08", "O1", func(k string) bool { return strings.HasPrefix(k, "reader/logql/") && !strings.Contains(k, "internal_planner") }, "(O1) a batch handed to the next post-processing stage is replaced by a fresh slice, never re-sliced: the stage downstream (step re-bucketing) still reads it.")
 	addScoped("C09", "S4", in("internal_planner"), "(S4) an in-process stage stores into an entry's label map only after excluding marker / error entries, whose map is nil.")
 	addScoped("C09", "S3", in("internal_planner"), "(S3) an in-process stage that changes the labels of an entry stores the fingerprint of the new label set on every path, so distinct label sets stay distinct series and equal ones are one.")
 	addScoped("C11", "D10", in("reader/traceql/"), d10)
